@@ -28,8 +28,8 @@ def RealOf(f):
 BUILTIN_NAMES = {'len', 'min', 'max', 'int', 'range', 'enumerate', 'list', 'callable', 'isinstance', 'hex', 'str',
                  'bool', 'abs', 'print', 'bytes', 'bytearray', 'sum', 'float', 'tuple', 'dict'}
 SPEC_NAMES = {'old', 'implies', 'forall', 'exists', 'ite', 'octets', 'bits', 'seq', 'at_entry', 'unchanged',
-              'same_elems', 'iff', 'keys_forall', 'typeis', 'fresh_list', 'count', 'select', 'intdiv',
-              'is_none', 'rep', 'concat', 'has_key', 'no_alias', 'allocated_before', 'steps', 'sumlen', 'fn', 'method'}
+              'same_elems', 'same_list', 'iff', 'keys_forall', 'typeis', 'fresh_list', 'count', 'select', 'intdiv',
+              'is_none', 'rep', 'concat', 'at_head', 'has_key', 'no_alias', 'allocated_before', 'steps', 'sumlen', 'fn', 'method'}
 EXC_NAMES = set(EXC_PARENTS) | {'RuntimeWarning'}
 
 
@@ -766,7 +766,7 @@ class Interp:
             if name == 'trace':
                 return VList(z3.IntVal(TRACE_REF), TRef('Event'))
             if name == 'clock':
-                return VReal(st.clock_term())
+                return VReal(st.clock)
             if name == 'spec':
                 return VModule('spec')
             if name in SPEC_NAMES:
@@ -997,6 +997,8 @@ class Interp:
                 raise EngineError('attribute %s of None in spec (line %s)' % (attr, st.cur_line))
             raise PyRaise(VExc('AttributeError', (VStr("'NoneType' object has no attribute '%s'" % attr),)))
         if isinstance(obj, VRef):
+            if obj.old:
+                raise EngineError('field access through a reference produced by old(): wrap the whole expression in old() (line %s)' % st.cur_line)
             if obj.cls == 'Event':
                 return self.event_attr(obj, attr)
             ci = self.repo.find_class(obj.cls) if obj.cls else None
@@ -1071,6 +1073,19 @@ class Interp:
             return VFunc(st.hget_in(st.cur_heap(), 'k:ev.fn', z3.IntSort(), ev.t))
         if attr == 'n':
             return VInt(self.ar.from_index(st.hget_in(st.cur_heap(), 'k:ev.n', z3.IntSort(), ev.t)))
+        import re as _re
+        m = _re.match(r'^([irlfbo])(\d+|_\w+)$', attr)
+        if m and st.spec:
+            # typed accessors: the argument as int / real / list / func / bool / object, with the tag as definedness guard
+            kind, slot = m.group(1), m.group(2)
+            slot = ('a' + slot) if slot[0].isdigit() else ('k' + slot)
+            want = {'i': (VInt,), 'r': (VReal,), 'l': (VList,), 'f': (VFunc,), 'b': (VBool,), 'o': (VRef,)}[kind]
+            u = field_load(st, 'k:ev.' + slot, self.eng.T_ANY, ev.t)
+            for c, a in flatten_union(u):
+                if isinstance(a, want):
+                    st.defined.append(c)
+                    return a
+            raise EngineError('typed event accessor ' + attr)
         return field_load(st, 'k:ev.' + attr, self.eng.T_ANY, ev.t)
 
     # ----- records (str-keyed dicts)
@@ -1087,9 +1102,28 @@ class Interp:
 
     def rec_key_type(self, rec, key, v=None):
         T_ = self.schema.key_type(rec.cls, key)
+        if T_ is None and rec.cls is None and v is not None:
+            # record literal of a class not known yet: pick the declared key type that fits the value
+            cands = [t for (c, k), t in self.schema.keys.items() if k == key]
+            fits = []
+            for t in cands:
+                if type_accepts(t, self.concretize_peek(v)):
+                    vv = self.concretize_peek(v)
+                    if isinstance(t, TList) and isinstance(vv, VList) and repr(t.elem) != repr(vv.elem):
+                        continue
+                    fits.append(t)
+            kinds = set(repr(t) for t in fits)
+            if len(kinds) == 1:
+                T_ = fits[0]
         if T_ is None:
             raise EngineError('record key %r (record class %r) has no declared shape (line %s)' % (key, rec.cls, self.st.cur_line))
         return T_
+
+    def concretize_peek(self, v):
+        if isinstance(v, VUnion):
+            alts = [a for c, a in flatten_union(v) if not isinstance(a, VNone)]
+            return alts[0] if alts else VNone()
+        return v
 
     def rec_load(self, rec, key, check=True):
         st = self.st
@@ -1163,7 +1197,9 @@ class Interp:
             i = self.idx(key)
             n = list_len(st, obj)
             if st.spec:
-                i2 = z3.simplify(z3.If(i < 0, i + n, i)) if not (z3.is_int_value(z3.simplify(i)) and z3.simplify(i).as_long() >= 0) else i
+                # spec indexing is mathematical; only literal negative constants count from the end
+                ci = z3.simplify(i)
+                i2 = z3.simplify(ci + n) if (z3.is_int_value(ci) and ci.as_long() < 0) else ci
                 return list_get(st, obj, i2)
             ok = z3.And(i >= -n, i < n)
             if not st.valid(ok):
@@ -1186,6 +1222,8 @@ class Interp:
                         raise PyRaise(VExc('KeyError', (key,)))
             return table_get(st, obj, k)
         if isinstance(obj, VRef):
+            if obj.old:
+                raise EngineError('key access through a reference produced by old(): wrap the whole expression in old() (line %s)' % st.cur_line)
             if isinstance(key, VStr):
                 return self.rec_load(obj, key.s)
             if obj.cls == '{}':
@@ -1277,7 +1315,7 @@ class Interp:
         if isinstance(fnode, ast.Name) and fnode.id == 'print':
             return VNone()
         # spec builtins that need unevaluated arguments
-        if st.spec and isinstance(fnode, ast.Name) and fnode.id in ('old', 'forall', 'exists', 'at_entry', 'keys_forall', 'unchanged', 'count', 'implies', 'ite', 'iff'):
+        if st.spec and isinstance(fnode, ast.Name) and fnode.id in ('old', 'forall', 'exists', 'at_entry', 'keys_forall', 'unchanged', 'count', 'implies', 'ite', 'iff', 'at_head'):
             return self.eng.spec_special(self, fnode.id, node)
         f = self.eval(fnode)
         args = []
@@ -1296,7 +1334,7 @@ class Interp:
 
     def call(self, f, args, kwargs, node=None):
         st = self.st
-        f = self.concretize(f)
+        f = self.concretize(f, (VFunc, VBound, VBuiltin, VClass, VLambda))
         if isinstance(f, VBuiltin):
             return self.eng.call_builtin(self, f, args, kwargs, node)
         if isinstance(f, VBound):
